@@ -1,0 +1,11 @@
+//go:build verif
+
+package vm
+
+// C03 / C04 / C07: the places that call recover() are part of two arguments at once - that no Go panic reaches the
+// host (every evaluation entry and every goroutine recovers: scans recoverguard / gostmts) and that a panic ENDS the
+// evaluation it happened in: the VM's unwinding (callFunction's deferred resumeFrame) restores the frame registers but
+// keeps the top stack item as a "result", which is harmless only because nothing runs afterwards. A recover() somewhere
+// else - seed C04j put one into the try() builtin, so that scripts could catch Go panics - lets the evaluation go on
+// with one stale operand per recovered panic. Inventory of the functions of this package that call recover(): the two evaluation entries (Run / RunCode through runCodeInternal, Call).
+//@ scan[C03.recover.sites.vm] C03,C04,C07 recoversites github.com/risor-io/risor/vm: (*VirtualMachine).Call$Call$1 (*VirtualMachine).runCodeInternal$runCodeInternal$1
